@@ -2192,6 +2192,22 @@ static void upipe_h265f_output_au(struct upipe *upipe, struct uref *uref,
     upipe_h265f_output(upipe, uref, upump_p);
 }
 
+/** @internal @This forgets the attributes describing the access unit that
+ * has just been extracted or discarded: they were set on the first buffer of
+ * the octet stream, which may also hold the beginning of the next access unit.
+ *
+ * @param upipe description structure of the pipe
+ */
+static void upipe_h265f_flush_au_attr(struct upipe *upipe)
+{
+    struct upipe_h265f *upipe_h265f = upipe_h265f_from_upipe(upipe);
+    upipe_h265f->au_nal_units = 0;
+    if (upipe_h265f->next_uref == NULL)
+        return;
+    uref_h26x_delete_nal_offsets(upipe_h265f->next_uref);
+    uref_flow_delete_random(upipe_h265f->next_uref);
+}
+
 /** @internal @This prepares an annex B access unit.
  *
  * @param upipe description structure of the pipe
@@ -2211,6 +2227,7 @@ static struct uref *upipe_h265f_prepare_annexb(struct upipe *upipe)
         upipe_h265f->active_pps == -1) {
         upipe_warn(upipe, "discarding data without VPS/SPS/PPS");
         upipe_h265f_consume_uref_stream(upipe, upipe_h265f->au_size);
+        upipe_h265f_flush_au_attr(upipe);
         upipe_h265f->au_size = 0;
         upipe_h265f->au_nal_units = 0;
         upipe_h265f->au_vcl_offset = -1;
@@ -2230,7 +2247,7 @@ static struct uref *upipe_h265f_prepare_annexb(struct upipe *upipe)
         upipe_throw_fatal(upipe, UBASE_ERR_ALLOC);
         return NULL;
     }
-    upipe_h265f->au_nal_units = 0;
+    upipe_h265f_flush_au_attr(upipe);
 
     int err = upipe_h265f_prepare_au(upipe, uref);
     UBASE_FATAL(upipe, err);
@@ -2324,6 +2341,7 @@ static void upipe_h265f_end_annexb(struct upipe *upipe, struct upump **upump_p)
             /* we need to discard previous data */
             upipe_warn(upipe, "discarding non-sync data");
             upipe_h265f_consume_uref_stream(upipe, upipe_h265f->au_size);
+            upipe_h265f_flush_au_attr(upipe);
             upipe_h265f->au_size = 0;
         }
         upipe_h265f_sync_acquired(upipe);
@@ -2374,6 +2392,7 @@ static void upipe_h265f_end_annexb(struct upipe *upipe, struct upump **upump_p)
         /* discard the entire NAL */
         upipe_warn(upipe, "discarding non-slice data due to discontinuity");
         upipe_h265f_consume_uref_stream(upipe, upipe_h265f->au_size);
+        upipe_h265f_flush_au_attr(upipe);
         upipe_h265f->au_size = 0;
         return;
     }
